@@ -447,6 +447,12 @@ def plan(tier, seed):
         nn = {"C20": 20, "C24": 24, "C60": 60}[name[:3]]
         for s0 in range(0, nn, 10):
             tasks.append(("api/cages", ("cage", name, s0, min(nn, s0 + 10))))
+    from mc.props import c06 as _c06
+    scopes.append({"name": "hetero-skeletons", "skeletons": _c06.AROM, "substituents": ["", "C", "F", "=O", "O"],
+                   "desc": "named hetero-aromatic skeletons incl. hetero atoms saturated in a higher valence state (s(=O), p(=O)(C), "
+                           "n(C), [n+]) with one substituent at every position, alone and as second fragment"})
+    for k in range(len(_c06.AROM)):
+        tasks.append(("hetero-skeletons", ("hetero", k)))
     return {"scopes": scopes, "tasks": tasks, "bounds": {"graphs_n": 8, "chain_chords": [nc, kc], "ring_forms": [na, ra]},
             "weight": lambda t: (5 if t[1][0] in ("carbon8", "cage") else (t[1][1] if t[1][0] in ("graphs", "forms", "subst") else 1))}
 
@@ -512,6 +518,12 @@ def run(task):
                         check_graph(adj, r, fpm, False)
             r.sample({"scope": scope, "n": n, "first_chord_from": first}, 1)
         return r
+    if kind == "hetero":
+        from mc.props import c06 as _c06
+        for smi in sorted(_c06.aromatic_variants(_c06.AROM[arg[1]])):
+            r.states += 1
+            last = (smi, check_smiles(smi, r))
+            check_smiles("c1ccccc1." + smi, r)
     if kind == "forms":
         _, n, pi, rmax, palname = arg
         pal = PAL_BASIC if palname == "basic" else PAL_MORE
